@@ -148,7 +148,63 @@ def cxx_case(chk, i):
     return out
 
 
+LAYOUT_SNIPPETS = ["aligned_typedef_record", "alignas_member", "alignas_type_member", "aligned_noarg", "packed_enum", "pragma_pack_push_pop",
+                   "pragma_pack_aligned_member", "ms_struct", "bitfield_bool_enum", "bitfield_only_zero", "bitfield_unnamed_wide", "bitfield_int128",
+                   "bitfield_after_array", "long_double_members", "int128_alignment", "vector_member", "union_aligned_member", "union_packed",
+                   "transparent_union", "nested_fam", "zero_len_middle", "empty_in_struct", "bool_array_2d", "wchar_members", "char16_32",
+                   "anon_union_aligned", "anon_struct_packed", "aligned_array_member", "aligned_ptr_member", "struct_aligned_less",
+                   "packed_aligned_nested", "enum_fixed_members", "atomic_members", "fnptr_aligned", "typedef_array_aligned",
+                   "pack_only_zero_len_overaligned", "pack_fam_with_revealing_member", "pack_nested_records", "pack_bitfields_and_arrays",
+                   "overaligned", "bitfield_big", "zero_size", "fam_nested", "nested_anon", "int128", "float128", "atomic"]
+SNIPPET_OPTSETS = [("default", []), ("derives", ["--with-derive-default", "--with-derive-hash", "--with-derive-partialeq", "--with-derive-eq"]),
+                   ("old-target", ["--rust-target", "1.70"]), ("no-copy", ["--no-derive-copy"]), ("core", ["--use-core", "--ctypes-prefix", "::core::ffi"])]
+
+
+def snippet_case(chk, sn):
+    """hand-written layout-hostile records (alignment carried by members / arrays / pointers, nested pragma pack, packed + zero-length
+    arrays, ms_struct, vectors, __int128, ...): every layout assertion bindgen emits (clang's numbers) must evaluate against the Rust layout"""
+    import re
+    from .. import build, hostile
+    from ..core import run as sh, write
+    name, text = sn
+    d = chk.dir("sn-" + name)
+    hdr = write(os.path.join(d, "s.h"), text + "\n")
+    out = []
+    for oname, flags in SNIPPET_OPTSETS:
+        cname = "layout-snippet-%s-%s" % (name, oname)
+        b = os.path.join(d, "b_%s.rs" % oname)
+        rc, so, se, _ = sh([build.BINDGEN, hdr] + flags + ["-o", b], timeout=120, cpu=100)
+        if rc != 0:
+            out.append(Verdict(INCONCLUSIVE, cname, "bindgen failed: " + se[-200:]))
+            continue
+        btext = open(b).read()
+        rcr, sor, ser, _ = sh(["rustc", "--edition", "2021", "--crate-type", "lib", "--emit=metadata", "-A", "warnings", "-o", os.path.join(d, "m.rmeta"), b] if oname != "old-target" else
+                              ["rustc", "--edition", "2021", "--test", "-A", "warnings", "-o", os.path.join(d, "t_%s" % oname), b], timeout=180)
+        nassert = len(re.findall(r'\["(?:Size|Alignment) of [^"]+"\]|\["Offset of field: [^"]+"\]|assert_eq ?!', btext))
+        obs = {"layout_snippets_x_optsets": 1, "snippet_layout_assertions": nassert}
+        files = {"s.h": text, "flags.txt": " ".join(flags), "bindings.rs": btext, "rustc.txt": ser[-3000:]}
+        failing = sorted(set(re.findall(r'\["((?:Size|Alignment) of [^"]+|Offset of field: [^"]+)"\]', ser)))
+        if failing:
+            out.append(Verdict(VIOLATED, cname, "layout assertions (clang's numbers) fail to evaluate against the Rust layout: %s" % failing[:8], files=files, obs=obs))
+            continue
+        if rcr != 0:
+            out.append(Verdict(HELD, cname, obs=dict(obs, snippet_compile_errors_deferred_to_C01=1)))
+            continue
+        if oname == "old-target":
+            # below the offset_of! gate the assertions are #[test] functions: run them
+            rct, sot, set_, _ = sh([os.path.join(d, "t_%s" % oname)], timeout=120)
+            obs["snippet_test_binaries_run"] = 1
+            if rct != 0:
+                out.append(Verdict(VIOLATED, cname, "generated layout #[test] functions fail: %s" % (sot + set_)[-600:], files=files, obs=obs))
+                continue
+        out.append(Verdict(HELD, cname, obs=obs, nontrivial=nassert >= 2, key=cname))
+    return out
+
+
 def run(chk):
+    from .. import hostile
+    sn = [s_ for s_ in hostile.C if s_[0] in LAYOUT_SNIPPETS]
+    chk.map(lambda s_: snippet_case(chk, s_), sn, budget_s=600)
     chk.map(lambda i: cxx_case(chk, i), range(chk.pick(40, 400)), budget_s=chk.pick(200, 1200))
     n = chk.pick(48, 400)
     n_opts = chk.pick(5, 10)
